@@ -53,7 +53,7 @@ CONF = {
     "C09": {
         "rule": "cases = (initial total over int64 classes, refresh mode none|manual|injected auto, with/without EWMA decorator, 0-40 operations drawn against the reference bar model so that mutators stop at the first terminal state: increments of all 6 flavours incl. negative and boundary amounts, SetCurrent/EwmaSetCurrent, SetTotal(+/-,complete), EnableTriggerComplete, SetRefill, Abort, getters, render cycles); non-trivial = >=3 mutators of >=2 kinds and the trigger flag was touched or the cap at total applied; distinct by FNV-64 of the case JSON",
         "assumptions": GO_ASSUME + ["reference model written from the method documentation in bar.go and the property statement; int64 wrap-around is not generated (no promise documented)", "a call that has not returned after 20 s (normal: microseconds) is reported as a hang"],
-        "tiers": tiers(8, 12000, 16, 250000),
+        "tiers": tiers(8, 12000, 16, 250000, t_fuzz=[{"target": "FuzzC09", "seconds": 90}]),
         "require_classes": ["mode:none", "mode:manual", "mode:autoinj", "total<=0", "trigger-enabled-later", "completed", "aborted", "refill-read", "statistics-read"],
     },
     "C20": {
@@ -63,13 +63,13 @@ CONF = {
             "values derived from time.Since are bracketed between two clock reads of the oracle; the printed value must be the truncation of some instant in the bracket",
             "verb b (binary exponent form) is not generated: Go cannot parse it back; speeds are kept <= 1e18 B/s (int64 bytes per second)",
         ],
-        "tiers": tiers(8, 12000, 16, 300000),
+        "tiers": tiers(8, 12000, 16, 300000, t_fuzz=[{"target": "FuzzC20", "seconds": 90}]),
         "require_classes": ["kind:size", "kind:pair", "kind:pct", "kind:elapsed", "kind:eta", "kind:avgeta", "kind:speed", "kind:avgspeed", "kind:ewma", "kind:freeze", "current>2^64/100", "value>2^53", "unit-boundary", "duration>=24h", "zero-then-progress", "via-bar", "wrap-depth:4", "twin-moved", "avg:median"],
     },
     "C19": {
         "rule": "cases = (direction, underlying dynamic type: with/without Close x with/without WriteTo/ReadFrom, stream of 0-70000 bytes, bar total unknown/equal/above/below the stream length, 0-3 recording moving-average decorators under 0-3 wrapper layers, a script of up to 12 underlying results (byte limits incl. 0, errors with n>0, EOF with data, delays) and up to 12 consumer calls: Read/Write of generated sizes, io.Copy, io.ReadAll, direct WriteTo/ReadFrom, Close); non-trivial = >=3 transfers of >=2 sizes with an injected error/zero transfer or a fast-path type; distinct by FNV-64 of the case JSON",
         "assumptions": GO_ASSUME + ["differential oracle: the same script is played on a bare twin of the underlying value by the same consumer", "sample durations are only bounded from below by the time the scripted call slept (time.Sleep guarantees at least that)"],
-        "tiers": tiers(8, 4000, 16, 100000),
+        "tiers": tiers(8, 4000, 16, 100000, t_fuzz=[{"target": "FuzzC19", "seconds": 90}]),
         "require_classes": ["dir:read", "dir:write", "fast-path-type", "closer", "ewma", "capped", "ewma-samples-checked"],
     },
     "C06": {
@@ -112,7 +112,7 @@ CONF = {
     },
     "C16": {
         "rule": "cases = scenarios drawn from the generators of C01 (concurrent clients, n>q, sync decorators), C15 (render faults at every site), C14 (cancel/Shutdown as a step) and C03 (auto refresh with early refresh, pop, queued bars), each run 1-4 times in a row in one process, followed by a goroutine-dump poll; non-trivial = auto refresh, a fired fault, a cancel or a notifier was involved; distinct by FNV-64 of the scenario JSON",
-        "assumptions": GO_ASSUME + SCHED_ASSUME + ["a goroutine counts as leaked when it has a library frame or was created by library code, is blocked, and its stack is unchanged over 150 ms after everything else has finished; runnable leftovers make the case inconclusive", "containers are run one after another (the instrumentation hooks are process-global), not overlapping"],
+        "assumptions": GO_ASSUME + SCHED_ASSUME + ["a goroutine counts as leaked when it has a library frame or was created by library code, is blocked, and its stack is unchanged over 400 ms after everything else has finished; runnable leftovers make the case inconclusive", "containers are run one after another (the instrumentation hooks are process-global), not overlapping"],
         "tiers": tiers(8, 800, 16, 12000),
         "require_classes": ["refresh:autort", "refresh:autoinj", "refresh:manual", "refresh:none", "render-fault", "cancelled", "notifier", "repeated", "concurrent-clients"],
     },
@@ -157,7 +157,7 @@ CONF = {
         "rule": "cases = sequential scenarios (container config, 1-7 bar specs, program of add/incr/set/abort/priority/write/tick/cancel steps) drawn by rapid; non-trivial = >=3 frames and >=1 change of the displayed set between frames; distinct by FNV-64 of the scenario JSON",
         "assumptions": GO_ASSUME + SCHED_ASSUME + ["one output Write call = one frame (cwriter flushes its buffer with a single Write)", "exact frame model only for manual refresh, sequential client and queue length > number of bars; otherwise history invariants"],
         "tiers": tiers(8, 1500, 16, 40000),
-        "require_classes": ["exact-model", "membership-change", "pop", "refresh:autoinj", "clipped", "render-fault"],
+        "require_classes": ["exact-model", "membership-change", "pop", "refresh:autoinj", "clipped", "render-fault", "q<n", "concurrent-adders", "add-before-cycle-checked"],
     },
     "C17": {
         "rule": "cases = sequential scenarios with BarQueueAfter links (70% of bars), chains, pop mode, removal, aborts, manual and injected auto refresh; non-trivial = a successor created after its predecessor finished, or a predecessor with >=2 successors, or a chain of >=3; distinct by FNV-64 of the scenario JSON",
